@@ -114,7 +114,7 @@ def run(ctx):
                 'non-trivial = hint has >= 1 container level; distinct = distinct (hint, object, conf)')
     ctx.assumptions += ['message wording beyond "names the hint" is not modelled; culprits are compared by identity of the first entry',
                         'user-defined __instancecheck_str__ hooks are outside the model']
-    regenerate(ctx)
+    ctx.safe_regenerate(regenerate)
     proof_err = c01.prove_core(ctx, PROP)
     try:
         from harness.common import coq_make
@@ -199,7 +199,7 @@ def run(ctx):
 def replay(ctx, path):
     with open(path) as f:
         body = json.load(f)
-    regenerate(ctx)
+    ctx.safe_regenerate(regenerate)
     case = body['record'].get('case')
     if case:
         obs = C.run_impl_cases([case])
